@@ -670,6 +670,231 @@ def ops_cases(quick):
                     yield dict(family='ops', base=base, start=start, ops=pre, final_noreset=op)
 
 
+# -- several live transactions: serialising one is independent of the others ---------------------------------------
+#
+# An input created with Input.spend(parent.outputs[k]) (drafts chained by the wallet) or re-attached with
+# `txi.txo_ref = parent.outputs[k].ref` (Ledger._sync) holds a LIVE reference to the parent transaction: serialising
+# the child asks the parent for its hash, which may serialise the parent in the middle of the child's serialisation.
+# Whatever the order of edits and reads, each transaction's raw/id/hash must be the encoding of its own current
+# fields, with every attached input's previous hash == txid of the parent's CURRENT fields.
+
+CHAIN_TOPOLOGIES = {
+    # node -> list of (parent node, output index) it spends; roots have a plain (unattached) input
+    'parent-child': [('P', []), ('C', [('P', 1)])],
+    'grandparent-chain': [('G', []), ('P', [('G', 0)]), ('C', [('P', 0)])],
+    'two-parents': [('P1', []), ('P2', []), ('C', [('P1', 0), ('P2', 1)])],
+}
+CHAIN_OPS = ['edit', 'addout', 'readid', 'read', 'reparse', 'segwit']
+CHAIN_STARTS = ['built', 'parsed-legacy', 'parsed-segwit']
+CHAIN_CHILD = ['spend', 'attach-legacy', 'attach-segwit']
+_NULL_SPEND = None
+
+
+def _spend_script():
+    from refs import script_ref as sr
+    return sr.build_input('pubkey_hash', {'signature': b'\x00' * 72, 'pubkey': b'\x00' * 33})
+
+
+def chain_plain(state, name):
+    """Reference fields of a node with attached inputs resolved against the parents' CURRENT fields."""
+    from refs import btc_tx as bt
+    node = state[name]
+    ins = []
+    for i in node['inputs']:
+        if i['parent']:
+            pn, k = i['parent']
+            ins.append({'prev_hash': bt.sha256d(bt.encode_legacy(chain_plain(state, pn))), 'prev_index': k,
+                        'script': i['script'], 'sequence': i['sequence']})
+        else:
+            ins.append({k: i[k] for k in ('prev_hash', 'prev_index', 'script', 'sequence')})
+    return {'version': node['version'], 'locktime': node['locktime'], 'inputs': ins,
+            'outputs': [{'amount': o['amount'], 'script': o['script']} for o in node['outputs']]}
+
+
+def chain_expected_raw(state, name):
+    from refs import btc_tx as bt
+    pl = chain_plain(state, name)
+    if state[name]['frozen_segwit']:
+        return bt.encode(dict(pl, inputs=[dict(a, witness=b['witness']) for a, b in zip(pl['inputs'], state[name]['inputs'])]),
+                         segwit=True)
+    return bt.encode_legacy(pl)
+
+
+def chain_descendants(state, name):
+    out = []
+    for n in state['order']:
+        if any(i['parent'] and i['parent'][0] == name for i in state[n]['inputs']):
+            out.append(n)
+            out += [d for d in chain_descendants(state, n) if d not in out]
+    return out
+
+
+def chain_attach(state, name):
+    """Re-attach, as Ledger._sync does, the inputs of `name` to its parents' outputs and its children's inputs to its own."""
+    node = state[name]
+    for n, i in enumerate(node['inputs']):
+        if i['parent']:
+            pn, k = i['parent']
+            node['tx'].inputs[n].txo_ref = state[pn]['tx'].outputs[k].ref
+    for cn in state['order']:
+        for n, i in enumerate(state[cn]['inputs']):
+            if i['parent'] and i['parent'][0] == name:
+                state[cn]['tx'].inputs[n].txo_ref = node['tx'].outputs[i['parent'][1]].ref
+
+
+def chain_reparse(state, name, segwit):
+    from lbry.wallet.transaction import Transaction
+    from refs import btc_tx as bt
+    node = state[name]
+    if segwit:
+        for n, i in enumerate(node['inputs']):
+            i['witness'] = i['witness'] or [blob(72, 40 + n), blob(33, 41 + n)]
+        node['frozen_segwit'] = True
+    raw = chain_expected_raw(state, name)        # reference bytes: the library object's id stays cold
+    node['tx'] = Transaction(raw)
+    if not segwit and node['frozen_segwit']:
+        pass                                     # a frozen segwit node parsed again stays segwit
+    chain_attach(state, name)
+    return bt.decode(raw)['segwit']
+
+
+def chain_build(topology, start, child_kind):
+    from lbry.wallet.transaction import Transaction, Input, Output, TXORef
+    from lbry.wallet.hash import TXRefImmutable
+    from lbry.wallet.script import InputScript
+    from refs import script_ref as sr
+    state = {'order': []}
+    for idx, (name, parents) in enumerate(CHAIN_TOPOLOGIES[topology]):
+        outs = [{'amount': 10_000 * (idx + 1) + j, 'pkh': blob(20, 10 * idx + j)} for j in range(2)]
+        for o in outs:
+            o['script'] = sr.build_output('pay_pubkey_hash', {'pubkey_hash': o['pkh']})
+        node = {'version': 1 + idx % 2, 'locktime': idx, 'outputs': outs, 'frozen_segwit': False, 'inputs': []}
+        state[name] = node
+        state['order'].append(name)
+        if not parents:
+            node['inputs'].append({'parent': None, 'prev_hash': blob(32, 60 + idx), 'prev_index': idx,
+                                   'script': unknown_script(5 + idx, idx), 'sequence': 0xFFFFFFFE, 'witness': []})
+            tx = Transaction(version=node['version'], locktime=node['locktime'])
+            i = node['inputs'][0]
+            tx.add_inputs([Input(TXORef(TXRefImmutable.from_hash(i['prev_hash'], -1), i['prev_index']),
+                                 InputScript(i['script']), i['sequence'])])
+            tx.add_outputs([Output.pay_pubkey_hash(o['amount'], o['pkh']) for o in outs])
+            node['tx'] = tx
+            if start != 'built':
+                chain_reparse(state, name, segwit=start == 'parsed-segwit')
+            continue
+        for pn, k in parents:
+            node['inputs'].append({'parent': (pn, k), 'script': _spend_script(), 'sequence': 0xFFFFFFFF, 'witness': []})
+        if child_kind == 'spend':
+            tx = Transaction(version=node['version'], locktime=node['locktime'])
+            tx.add_inputs([Input.spend(state[pn]['tx'].outputs[k]) for pn, k in parents])
+            tx.add_outputs([Output.pay_pubkey_hash(o['amount'], o['pkh']) for o in outs])
+            node['tx'] = tx
+        else:
+            chain_reparse(state, name, segwit=child_kind == 'attach-segwit')
+    return state
+
+
+def chain_apply(state, op, name, step):
+    """-> None, or (view, what) when a read disagrees with the reference."""
+    from lbry.wallet.transaction import Output
+    from refs import btc_tx as bt, script_ref as sr
+    node = state[name]
+    tx = node['tx']
+    if op in ('edit', 'addout'):
+        if op == 'addout':
+            o = {'amount': 777 + step, 'pkh': blob(20, 200 + step)}
+            o['script'] = sr.build_output('pay_pubkey_hash', {'pubkey_hash': o['pkh']})
+            node['outputs'].append(o)
+            tx.add_outputs([Output.pay_pubkey_hash(o['amount'], o['pkh'])])
+        else:
+            j = step % len(node['outputs'])
+            o = node['outputs'][j]
+            if step % 2 == 0:
+                o['amount'] = o['amount'] + 1_000_003 + step
+                tx.outputs[j].amount = o['amount']
+            else:
+                o['pkh'] = blob(20, 210 + step)
+                o['script'] = sr.build_output('pay_pubkey_hash', {'pubkey_hash': o['pkh']})
+                tx.outputs[j].script.values['pubkey_hash'] = o['pkh']
+                tx.outputs[j].script.generate()
+            tx._reset()
+        node['frozen_segwit'] = False
+        # cached bytes of descendants describe the old parent id: flush them the documented way
+        for d in chain_descendants(state, name):
+            state[d]['tx']._reset()
+            state[d]['frozen_segwit'] = False
+        return None
+    if op in ('reparse', 'segwit'):
+        chain_reparse(state, name, segwit=op == 'segwit')
+        return None
+    exp_id = bt.sha256d(bt.encode_legacy(chain_plain(state, name)))
+    if op == 'readid':
+        return None if tx.id == exp_id[::-1].hex() else ('id', f'{name}.id is not the txid of its current fields')
+    exp_raw = chain_expected_raw(state, name)
+    raw = tx.raw
+    if raw != exp_raw:
+        return 'raw', (f'{name}.raw ({len(raw)} bytes) is not the encoding of its current fields with the parents\' current '
+                       f'ids ({len(exp_raw)} bytes)')
+    if tx.hash != exp_id or tx.id != exp_id[::-1].hex():
+        return 'id', f'{name}.id/hash is not the reversed/plain sha256d of its witness-free encoding'
+    if tx.raw_sans_segwit != bt.encode_legacy(chain_plain(state, name)):
+        return 'raw_sans_segwit', f'{name}.raw_sans_segwit is not its witness-free encoding'
+    return None
+
+
+def evaluate_chain(case, res, rep=None):
+    """case: family='chain', topology, start, child, ops = tuple of 'op:node'."""
+    from lbry.wallet.transaction import Transaction
+    rep = rep or {'case': case}
+    res.count('evaluations')
+    what = f"{case['topology']} (roots {case['start']}, children {case['child']}) ops={'>'.join(case['ops']) or '-'}"
+    sig = {'family': 'chain', 'oracle': 'multi-tx', 'topology': case['topology']}
+    last = 'build'
+    try:
+        state = chain_build(case['topology'], case['start'], case['child'])
+        roots = {n for n, ps in CHAIN_TOPOLOGIES[case['topology']] if not ps}
+        # every history ends with: child first (its parents' ids may be cold), then every node, then every node again
+        final = [f'read:{n}' for n in reversed(state['order'])] + [f'read:{n}' for n in state['order']]
+        for step, opn in enumerate(list(case['ops']) + final):
+            op, name = opn.split(':')
+            bad = chain_apply(state, op, name, step)
+            res.count('transitions')
+            if bad:
+                res.violation(dict(sig, after=last.split(':')[0], after_on='root' if last.split(':')[-1] in roots else 'non-root',
+                                   view=bad[0], read_on='root' if name in roots else 'non-root'),
+                              f'{what}: at {opn} (step {step}, after {last}): {bad[1]}', rep)
+                return
+            if op in ('edit', 'addout', 'reparse', 'segwit'):
+                last = opn
+        for n in state['order']:
+            got = lib_fields(Transaction(state[n]['tx'].raw))
+            d = first_diff(got, chain_plain(state, n))
+            if d:
+                res.violation(dict(sig, after=last.split(':')[0], view='parse-back', field=d[0]),
+                              f'{what}: {n}.raw parses back with a different {d[0]}', rep)
+                return
+    except Exception as e:   # noqa
+        res.violation(dict(sig, after=last.split(':')[0], exception=exc_name(e)), f'{what}: raised {e!r:.120}', rep)
+        return
+    res.count('executions')
+    res.distinct_add('nontrivial', ('chain', case['topology'], case['start'], case['child'], case['ops']))
+    res.witness('child_serialised_while_parent_id_cold' if case['start'] != 'built' or
+                any(o.split(':')[0] in ('edit', 'addout', 'segwit') for o in case['ops']) else 'chain_without_cold_parent')
+
+
+def chain_cases(quick):
+    for topology, nodes in CHAIN_TOPOLOGIES.items():
+        names = [n for n, _ in nodes]
+        alphabet = [f'{op}:{n}' for n in names for op in CHAIN_OPS]
+        depth = (3 if len(names) == 2 else 2) if quick else (4 if len(names) == 2 else 3)
+        for start in CHAIN_STARTS:
+            for child in CHAIN_CHILD:
+                for n in range(0, depth + 1):
+                    for ops in itertools.product(alphabet, repeat=n):
+                        yield dict(family='chain', topology=topology, start=start, child=child, ops=ops)
+
+
 def evaluate_segwit(case, res, rep=None):
     from refs import btc_tx as bt
     rep = rep or {'case': case}
@@ -1001,7 +1226,7 @@ def work(item, res):
         return
     if kind == 'cases':
         for case in payload:
-            {'segwit': evaluate_segwit, 'ops': evaluate_ops}.get(case['family'], evaluate_legacy)(case, res)
+            {'segwit': evaluate_segwit, 'ops': evaluate_ops, 'chain': evaluate_chain}.get(case['family'], evaluate_legacy)(case, res)
     elif kind == 'fixtures':
         for name in payload:
             evaluate_fixture(name, res)
@@ -1029,6 +1254,8 @@ def run(ctx):
     items += list(batches(seg))
     ops = list(ops_cases(ctx.quick))
     items += [('cases', ops[i:i + 600]) for i in range(0, len(ops), 600)]
+    chains = list(chain_cases(ctx.quick))
+    items += [('cases', chains[i:i + 400]) for i in range(0, len(chains), 400)]
     # heaviest first so that the pool drains evenly
     items.sort(key=lambda it: -sum(weight(c) for c in it[1]) if it[0] == 'cases' and 'n_in' in it[1][0] else 0)
     ctx.pmap(work, items)
@@ -1049,12 +1276,19 @@ def run(ctx):
               'sequence of up to ops_max_len steps over ops_alphabet (read = compare raw/id/hash/size/base_size with the '
               'reference; in-place edits of an output script / amount / input script / sequence / locktime / version each '
               'followed by _reset(); add_input/add_output) on 6 base transactions, built and parsed, every history ending '
-              'in a read and a parse-back.  Non-trivial = distinct case '
+              'in a read and a parse-back.  Several live transactions: parent-child, grandparent chain and a child of two '
+              'parents (inputs made with Input.spend or re-attached by txo_ref assignment as Ledger._sync does; roots built '
+              '/ parsed legacy / parsed segwit; children built / parsed legacy / parsed segwit), every sequence of up to '
+              'chain_max_len steps over {edit in place + _reset, add output, read id, read raw+id, parse again and '
+              're-attach, turn into a parsed segwit transaction} x node, then child-first reads of every node: each raw/id '
+              'must be the encoding of that node\'s current fields with the parents\' current ids.  Non-trivial = distinct case '
               'other than the all-defaults base case that was built, serialised, parsed and compared completely.'),
         exhaustive=True,
         bounds={'tier': ctx.tier, 'product_cases': len(prod), 'sweep_cases': len(sweeps), 'segwit_cases': len(seg),
                 'ops_histories': len(ops), 'ops_alphabet': H_OPS, 'ops_max_len': 3 if ctx.quick else 4,
-                'ops_bases': list(H_BASES),
+                'ops_bases': list(H_BASES), 'chain_histories': len(chains), 'chain_topologies': list(CHAIN_TOPOLOGIES),
+                'chain_ops': CHAIN_OPS, 'chain_root_starts': CHAIN_STARTS, 'chain_child_kinds': CHAIN_CHILD,
+                'chain_max_len': '3 (parent-child) / 2' if ctx.quick else '4 (parent-child) / 3',
                 'fixtures': len(fixture_list()),
                 'product': ('n_in 2 x n_out 3 x 5 output kinds x 3 lengths x 3 input kinds x 2 lengths x 2 versions x '
                             '2 sequences x 2 locktimes x 3 amounts' if ctx.quick else
@@ -1069,6 +1303,9 @@ def run(ctx):
             'transaction in the identical wire format) the segwit inputs are synthetic, produced by the reference encoder',
             'transactions the library can build = anything the Transaction/Input/Output constructors and the '
             'Output.pay_* / InputScript.redeem_* helpers accept; version is compared as the unsigned 32-bit wire value',
+            'several live transactions: after a parent is edited the harness calls _reset() on its descendants (their '
+            'cached bytes describe the old parent id; no API promises to flush them), never reads a library id to build '
+            'expectations (parents stay cold), and re-attaches inputs exactly as Ledger._sync does',
             'in-place edits of inputs/outputs must be followed by Transaction._reset() (as sign() and spend_time_lock() '
             'do); the same edits without _reset() are observed and tallied only',
             'a parsed segwit transaction is not required to re-serialise with its witness after _reset() (the statement '
@@ -1078,7 +1315,8 @@ def run(ctx):
                             'output_script_needs_5_byte_compact_size', 'output_script_needs_3_byte_compact_size',
                             'input_script_needs_3_byte_compact_size', 'amount_above_int64', 'uint32_field_above_int32',
                             'segwit_synthetic_parsed', 'segwit_published_vector_parsed', 'mainnet_fixture_roundtrip',
-                            'history_step_changed_raw_and_id', 'in_place_edit_after_serialisation_then_reset'],
+                            'history_step_changed_raw_and_id', 'in_place_edit_after_serialisation_then_reset',
+                            'child_serialised_while_parent_id_cold'],
     )
 
 
@@ -1098,6 +1336,12 @@ def replay(data):
         log = f"fixture {data['fixture']}"
     else:
         case = _fix_case(data['case'])
+        if case['family'] == 'chain':
+            case['ops'] = tuple(case['ops'])
+            evaluate_chain(case, res, data)
+            for v in res.violations.values():
+                return True, f"chain history {case}\n" + v['what']
+            return False, f'chain history {case}: every raw/id is that of the current fields'
         if case['family'] == 'ops':
             case['ops'] = tuple(case['ops'])
             evaluate_ops(case, res, data)
